@@ -4,7 +4,7 @@ lines (TAB separated; <fmt>/<str> percent-escaped; values `i:<int>` `s:<text>` `
 kwargs `key=VAL;key=VAL`; the last field <spec> is for the oracle only: the flat token list the *grammar* says the format denotes,
 `kind:len:canonical-value|…`, or `!arity` / `!size` / `!format` for the malformed stream, `?` = no expectation):
   C05 expand <str> <expected>                  -> ok <expanded>. | err                         expand_brackets
-  C05 tok    <fmt> <keys> <expected>           -> ok <preprocess_tokens> <stretchy> <tokens>   tokenparser (canonicalised)
+  C05 tok    <fmt> <keys> <expected>           -> ok <preprocess_tokens> <stretchy> <tokens> | err   tokenparser (canonicalised)
   C05 pack   <fmt> <kw> <vals> <u> <spec>      -> ok <bits>[ U:ok <vals>|U:err] | err ValueError | err   pack (+ unpack of the result if u=1)
   C05 comp   <f1> <f2> <kw> <v1> <v2> <spec>   -> ok <bits of pack(f1 , f2)>                   extra: pack(f1), pack(f2), pack([f1, f2])
   C05 rep    <n> <fmt> <kw> <vals> <spec>      -> ok <bits of pack('n*(fmt)', vals * n)>       extra: fmt written n times, pack(fmt) * n
@@ -264,7 +264,7 @@ def execute(line: str):
         try:
             st, toks = _utils.tokenparser(fmt, keys)
         except ValueError:
-            return "ok " + lst([esc(p) for p in pre]) + " err", extra
+            return "err", extra
         except Exception as e:                              # noqa: BLE001
             return "err " + err_name(e), extra
         return "ok " + lst([esc(p) for p in pre]) + (" 1 " if st else " 0 ") + lst([tokwire(t) for t in toks]), extra
@@ -389,7 +389,7 @@ def oracle(line: str, out: str, extra: dict):
         if exp == "?":
             return None
         if exp == "!format":
-            return None if out.startswith("err") or out.endswith(" err") else f"{op}: malformed input accepted: {out}"
+            return None if out.startswith("err") else f"{op}: malformed input accepted: {out}"
         if out != exp:
             return f"{op} {unesc(f[2])!r}: expected {exp}, got {out}"
         return None
@@ -932,7 +932,8 @@ def gen_malformed(rng, n):
             if rng.random() < 0.5:
                 tokbad = bad in ("2*(uint:8", "((uint:8)", "(", "x*(uint:8)", "*(uint:8)", "2*3*uint:8", "*uint:8", "uint:8*", "1.5*uint:8", "a*uint:8", "uint:8:8",
                                  "uint::8", "uint:m", "=5", "<", "<x", "<2", "%h", "<h=1", "0y12", "uint:-8", "2*(a", "-1*(uint:8)", "uint:8)", "(uint:8))", ")(")
-                yield SEP.join(["C05", "tok", esc(",".join(toks2)), "n" if kw else "-", "!format" if tokbad else "?"])
+                if tokbad:
+                    yield SEP.join(["C05", "tok", esc(",".join(toks2)), "n" if kw else "-", "!format"])
         else:                                                    # bracket strings straight into expand_brackets
             alphabet = ["(", ")", ",", "a", "b", "2", "3", "0", "*", "12"]
             s = "".join(rng.choice(alphabet) for _ in range(rng.randint(1, 10)))
@@ -941,9 +942,10 @@ def gen_malformed(rng, n):
                 depth += (ch == "(") - (ch == ")")
                 if depth < 0:
                     bal = False
-            # more opening than closing brackets → "Unbalanced parenthesis"
-            exp = "!format" if s.count("(") > s.count(")") else "?"
-            yield SEP.join(["C05", "expand", esc(s), exp])
+            # more opening than closing brackets → "Unbalanced parenthesis"; what happens to other garbage is not the
+            # property's business and is not observed
+            if s.count("(") > s.count(")"):
+                yield SEP.join(["C05", "expand", esc(s), "!format"])
 
 
 def gen(rng, tier):
